@@ -311,7 +311,7 @@ func (el *eventloop) write0(a any) error {
 const iovMax = 1024
 
 func (el *eventloop) write(c *conn) error {
-	if c.outboundBuffer.IsEmpty() {
+	if !c.opened || c.outboundBuffer.IsEmpty() {
 		return nil
 	}
 
